@@ -32,7 +32,9 @@ def meta(labels, digests=None):
 
 def doc(patches, labels):
     return {"metadata": meta(labels), "version": "1.0.0",
-            "patches": [{"metadata": {"name": n, "values": list(v)}, "patch": [{"op": "add", "path": f"/x{i}", "value": i}]} for i, (n, v) in enumerate(patches)]}
+            # every second patch has an empty operation list (schema-valid: a grid point that changes nothing)
+            "patches": [{"metadata": {"name": n, "values": list(v)}, "patch": ([{"op": "add", "path": f"/x{i}", "value": i}] if i % 2 == 0 else [])}
+                        for i, (n, v) in enumerate(patches)]}
 
 
 def base_workspaces():
@@ -376,7 +378,7 @@ def ev_apply(case):
     menu = op_menu(ws)
     applied = failed = 0
     ctx0 = dict(ws=case["ws"])
-    for L in range(1, case["maxlen"] + 1):
+    for L in range(0, case["maxlen"] + 1):
         for combo in itertools.product(range(len(menu)), repeat=L):
             ops = [menu[i] for i in combo]
             d = {"metadata": meta(["x"], {"sha256": ref_digest(ws, "sha256"), "md5": ref_digest(ws, "md5")}), "version": "1.0.0",
